@@ -348,6 +348,9 @@ pub fn replay(replay: &Json) -> i32 {
 
 pub fn minimise(replay: &Json) -> Json {
     sched::install_hook();
+    if replay.get("class").and_then(|c| c.as_str()) == Some("deadlock") {
+        return replay.clone();
+    }
     let (_, list, enabled) = match replay_parts(replay) {
         Ok(x) => x,
         Err(_) => return replay.clone(),
